@@ -171,6 +171,11 @@ type probeStruct struct {
 	B string
 }
 
+// badMarshaler cannot be marshalled; the error text is arbitrary.
+type badMarshaler struct{ msg string }
+
+func (b badMarshaler) MarshalJSON() ([]byte, error) { return nil, errors.New(b.msg) }
+
 // rval builds a Go value for Reflect/Any-other, appends its resolution (json.Marshal text or error) to res.
 func (c *cur) rval() any {
 	start := len(c.res)
@@ -211,6 +216,8 @@ func (c *cur) rvalRaw() any {
 		return m
 	case "rc":
 		return make(chan int)
+	case "rbm":
+		return badMarshaler{c.str()}
 	case "rf":
 		return func() {}
 	case "rst":
